@@ -32,7 +32,30 @@ pub enum Client {
     ResetPartial,
     ResetAfterRequest,
     GetNoRead,
+    /// unusual request bytes (index into ODD_REQUESTS), whatever answer comes is read and dropped
+    Odd(usize),
 }
+
+/// requests a lenient or careless parser treats specially: leading empty lines (RFC 9112 2.2
+/// lets a server skip them), bare line feeds, a complete header block without a request line,
+/// NUL and high octets, an HTTP/0.9 request, absolute-form and asterisk-form targets, a very
+/// long request line that ends, lower-case verb, several requests in one segment
+pub const ODD_REQUESTS: [&[u8]; 14] = [
+    b"\r\n\r\n",
+    b"\r\nGET /metrics HTTP/1.1\r\n\r\n",
+    b"\r\n\r\n\r\nGET /metrics HTTP/1.1\r\nHost: x\r\n\r\n",
+    b"\n\nGET /metrics HTTP/1.1\n\n",
+    b"\n",
+    b"\r",
+    b"\0\0\0\0\r\n\r\n",
+    b"\xff\xfe\xfd GET\r\n\r\n",
+    b"GET /metrics\r\n",
+    b"GET http://localhost/metrics HTTP/1.1\r\nHost: localhost\r\n\r\n",
+    b"OPTIONS * HTTP/1.1\r\n\r\n",
+    b"get /metrics http/1.1\r\n\r\n",
+    b"GET /metrics HTTP/1.1\r\n\r\nGET /metrics HTTP/1.1\r\n\r\nGET /metrics HTTP/1.1\r\n\r\n",
+    b"GET  /metrics  HTTP/1.1 \r\n \r\n\r\n",
+];
 
 #[derive(Clone, Copy, Debug, PartialEq, Eq, Serialize, Deserialize, PartialOrd, Ord)]
 pub enum ObsKind {
@@ -179,6 +202,12 @@ fn act(addr: &str, c: Client, wait: Duration) -> Result<Option<Result<Response, 
             let _ = s.write_all(REQ);
             std::thread::sleep(settle);
         }
+        Client::Odd(i) => {
+            let _ = s.write_all(ODD_REQUESTS[i % ODD_REQUESTS.len()]);
+            s.set_read_timeout(Some(Duration::from_millis(60))).unwrap();
+            let mut t = [0u8; 256];
+            let _ = s.read(&mut t);
+        }
     }
     drop(s);
     std::thread::sleep(Duration::from_millis(5));
@@ -295,6 +324,10 @@ pub fn sequences(tier: Tier) -> Vec<Seq> {
     }
     for k in 1..8 {
         v.push(Seq(vec![(Client::CloseAfter(1000 + k), ObsKind::Valid)]));
+    }
+    for i in 0..ODD_REQUESTS.len() {
+        v.push(Seq(vec![(Client::Odd(i), ObsKind::Valid)]));
+        v.push(Seq(vec![(Client::Odd(i), ObsKind::Absent)]));
     }
     // length 2
     for c1 in CLIENTS {
